@@ -89,6 +89,20 @@ def run(ctx):
             v["row"] = {k: r[k] for k in ("ct", "flags") if k in r}
     ctx.violations += bbad
     total += bt; distinct += bd
+    # the header block of a part: spec/MpartHdr.tla (pending line / folding / parse_header transcribed, five indicators)
+    hmc = vlib.tlc_or_die(ctx, "MpartHdrMC", "MpartHdrMC.cfg" if q else "MpartHdrMC_thorough.cfg", workers=vlib.NCPU, timeout=3000, xmx="8g")
+    for inv in hmc.violated:
+        ctx.violations.append({"clause": "Model:" + inv, "what": "MpartHdr reference violates its own meta-property: " + hmc.out[-1200:], "sites": []})
+    h1, h2 = (3, 2) if q else (4, 2)
+    hshards = [["exh", h1, h2, i, n] for i in range(n)] + [["rand", ctx.seed * 31 + i, 1500 if q else 30000] for i in range(4)] + [["blocks", 3 if q else 4, i, 4] for i in range(4)]
+    ht, hd, hbad, _ = vlib.pattern_f(ctx, "san", "fn_mphd", hshards, "MpartHdrRows", "MpartHdrRows.cfg", xmx="5g")
+    for v in hbad:
+        r = v.get("row") or {}
+        if isinstance(r, dict) and "lines" in r:
+            v["what"] = "%s: part header block %r -> %s" % (v["clause"], [bytes(l) for l in r["lines"]], json.dumps(r.get("outs"))[:300])
+            v["row"] = {"lines": r["lines"]}
+    ctx.violations += hbad
+    total += ht; distinct += hd
     vac = None if len(good) >= n_docs * 0.5 and total > len(good) * 20 else "only %d well-formed documents / %d rows" % (len(good), total)
     vlib.finish(ctx, "model_checking", {
         "states": mc.distinct, "transitions": mc.generated, "traces_validated_against_impl": total,
@@ -96,7 +110,9 @@ def run(ctx):
         "rule": "documents = Multipart!Doc(i) for %d consecutive indices (0..3 parts; names incl. escaped quote / backslash / empty; with and without file name and content type; folded Content-Disposition; data of 0..3 atoms from a "
                 "14-atom near-boundary alphabet incl. CR, LF, dashes, delimiter prefixes, boundary text not at a line start, NUL, CRLFCRLF; optional preamble / epilogue; CRLF or LF structure; LWS after delimiters), minus draws whose data "
                 "would contain a real delimiter; chunkings: whole, EVERY single cut, one byte per call, 3 random multi-cuts; through the parser directly and (a third of the cuts) a full POST; distinct = (document, route, chunking)" % n_docs,
-        "content_disposition_rows": ct, "boundary_rows": bt,
+        "content_disposition_rows": ct, "boundary_rows": bt, "header_block_rows": ht,
+        "header_block_rule": "every one-line block of <= %d atoms and every two-line block of <= %d atoms per line out of 14 (A a b : SP TAB NUL ( VT Content-Type content-disposition form-data ; -) + every block of <= %d whole lines out of 17 (valid fields, same name in other case, known names, continuations, broken lines) + random blocks of 1..4 lines, "
+                             "each delivered whole, one byte per call and cut in the middle: the part's header table and NUL_BYTE / PART_HEADER_INVALID / _UNKNOWN / _REPEATED / _FOLDING = spec/MpartHdr.tla" % (h1, h2, 3 if q else 4),
         "boundary_rule": "every Content-Type value built from <= %d atoms of 17 (three spellings of the type, boundary / Boundary / BOUNDARY, = quote BB 'a b' x'y ; , SP TAB # charset=x) + random decorated well-formed values "
                          "(boundaries of 70 / 71 characters, browser-style boundaries, trailing parameters, second boundary): OK / DECLINED, the boundary, HBOUNDARY_INVALID / _UNUSUAL = spec/MpartBoundary.tla" % ca,
         "content_disposition_rule": "5 prefixes x every sequence of <= %d atoms from {; SP name filename nam = quote escaped-quote escaped-backslash backslash a 'x y' TAB} + random lists of whole parameters: "
